@@ -50,7 +50,8 @@ def oneLine (r : Region) (k c q : Nat) : String :=
     s!"shl={showEx showRegion (r.shiftLeft k)}", s!"shr={showRegion (r.shiftRight k)}",
     s!"tr={if r.transpose.isEmpty then "-" else ";".intercalate (r.transpose.map (fun p => s!"{p.1}>{showNats p.2}"))}",
     s!"ovpt={showB (r.overlapsPt c q)}", s!"haskey={showB (r.hasKey q)}",
-    s!"ltpt={showEx (fun o => match o with | some b => showB b | none => "N") (r.ltPoint c q)}"]
+    s!"ltpt={showEx (fun o => match o with | some b => showB b | none => "N") (r.ltPoint c q)}",
+    s!"strict={if r.isEmpty then "-" else showB r.strictOk}"]
 
 def pairLine (r s : Region) : String :=
   " ".intercalate [
